@@ -175,14 +175,14 @@ func parseNodeNameArray(b []byte) (names []string, err error) {
 	}
 	n := int(b[0])
 	b = b[1:] // skip len byte
-	if len(b) < n*16+2 {
+	if len(b) < n*18 { // each entry is a 16 byte name followed by 2 bytes of flags
 		return names, packet.ErrFrameLen
 	}
 	for i := 0; i < n; i++ {
 		index := 18 * i
 		flags := binary.BigEndian.Uint16(b[index+16 : index+18]) // nameFlags
 		if (flags & 0x8000) == 0x00 {                            // don't add to the table if this is group name
-			nn := bytes.TrimRight(b[0:16], "\x00")
+			nn := bytes.TrimRight(b[index:index+16], "\x00")
 			nn = bytes.TrimRight(nn, " ")
 			name := string(nn)
 			names = append(names, string(name))
